@@ -35,6 +35,18 @@ pub fn judge_trailing(ls: &LangSet, code: &str, n: u64, int_phrase: &str) -> Opt
     None
 }
 
+/// English: zero dictated as `o` after a number (each `o` has a number word before it), twice in one text
+pub fn judge_trailing_o(ls: &LangSet, a: u64, pa: &str, b: u64, pb: &str) -> Option<String> {
+    let api = ls.api("en");
+    let text = format!("{} o, {} o", pa, pb);
+    let r = api.replace(&text, 0.0);
+    let expected = format!("{} 0, {} 0", a, b);
+    if r != expected {
+        return Some(format!("replace_numbers_in_text({:?}, 0) = {:?}, expected {:?} (an `o` dictated after a number is a new numeral 0)", text, r, expected));
+    }
+    None
+}
+
 pub fn run(ctx: &Ctx) -> Outcome {
     let mut numbers: Vec<u64> = (1..2000).collect();
     numbers.extend(gen::group_sweep(ctx.seed).into_iter().filter(|n| *n >= 1 && *n < 1_000_000_000).step_by(if ctx.quick() { 5 } else { 1 }));
@@ -100,6 +112,14 @@ pub fn run(ctx: &Ctx) -> Outcome {
                         }
                     }
                 }
+                if code == "en" {
+                    let b = 1 + gen::random_number(rng, 3);
+                    let pb = spell::cardinal("en", b);
+                    rep.eval(hash_bytes(&[b"en-o", int_phrase.as_bytes(), pb.as_bytes()]), true);
+                    if let Some(msg) = judge_trailing_o(&ls, n, &int_phrase, b, &pb) {
+                        rep.violation("en:trailing-o", jobj! {"kind" => "trailing-o", "lang" => "en", "n" => n, "phrase" => int_phrase.as_str(), "b" => b, "pb" => pb.as_str()}, format!("[en n={} b={}] {}", n, b, msg));
+                    }
+                }
                 rep.eval(hash_bytes(&[code.as_bytes(), b"trail", int_phrase.as_bytes()]), true);
                 if let Some(msg) = judge_trailing(&ls, code, n, &int_phrase) {
                     rep.violation(&format!("{}:trailing:{}", code, n % 100), jobj! {"kind" => "trailing-zero", "lang" => code, "n" => n, "phrase" => int_phrase.as_str()}, format!("[{} n={}] {}", code, n, msg));
@@ -130,6 +150,10 @@ pub fn replay(case: &J) -> Vec<String> {
     let n = case.get("n").and_then(|x| x.as_i64()).unwrap_or(0) as u64;
     match case.str_of("kind").as_str() {
         "trailing-zero" => judge_trailing(&ls, &code, n, &case.str_of("phrase")).into_iter().collect(),
+        "trailing-o" => {
+            let b = case.get("b").and_then(|x| x.as_i64()).unwrap_or(0) as u64;
+            judge_trailing_o(&ls, n, &case.str_of("phrase"), b, &case.str_of("pb")).into_iter().collect()
+        }
         "lone-zero" => {
             let z = spell::info(&code).zero;
             let v = ls.api(&code).validate(z);
